@@ -28,6 +28,11 @@ template<class V> std::string vecStr(V const& v){
 	for(std::size_t i = 0; i != v.size(); ++i){ if(i) os << ","; os << vh::exactDouble(v(i)); }
 	os << ")"; return os.str();
 }
+// configuration applied to the ORIGINAL only (the fresh optimizer keeps its defaults, so archived
+// configuration must come back through the archive)
+template<class Opt> void configure(Opt&){}
+void configure(SteepestDescent<>& o){ o.setLearningRate(0.0005); o.setMomentum(0.25); }
+
 // k steps, write, read into a fresh optimizer that was initialised on the same objective
 // from another starting point, then compare the next iterates exactly
 template<class Opt, class F>
@@ -37,6 +42,7 @@ std::string continues(std::string const& label, F& f, std::size_t warm, bool bin
 	Opt a, b;
 	f.init();
 	if(reseed) random::globalRng.seed(42);
+	configure(a);
 	a.init(f, start);
 	for(std::size_t i = 0; i != warm; ++i) a.step(f);
 	b.init(f, other);
@@ -47,6 +53,9 @@ std::string continues(std::string const& label, F& f, std::size_t warm, bool bin
 	for(std::size_t i = 0; i != 3; ++i){ a.step(f); A += vecStr(a.solution().point) + "=" + vh::exactDouble(a.solution().value) + ";"; }
 	if(reseed){ std::istringstream is(rngState.str()); is >> random::globalRng; }
 	for(std::size_t i = 0; i != 3; ++i){ b.step(f); B += vecStr(b.solution().point) + "=" + vh::exactDouble(b.solution().value) + ";"; }
+	// (text archives cannot represent inf/nan: boost's text_iarchive fails with "input stream error";
+	//  the generator keeps the iterates finite, a non-finite state is reported as such)
+	if(A.find("inf") != std::string::npos || A.find("nan") != std::string::npos) return "obj " + label + " non-finite-state";
 	if(A == B) return "obj " + label + " same";
 	return "obj " + label + " differs original{" + A.substr(0, 300) + "} restored{" + B.substr(0, 300) + "} !oracle next-iterates-differ";
 }
